@@ -124,7 +124,9 @@ func runC35(c *an.Ctx) {
 								}
 							}
 						}
-						if f := x.Call.StaticCallee(); f != nil && (f.Name() == "processConsensusMsg" || f.Name() == "CancelTxBlockTimeout") {
+						// handing the message on: only the hand-over made by the function that verified it (a proposal built from
+						// the remaining transactions is legitimately processed further down)
+						if f := x.Call.StaticCallee(); f != nil && in.Parent() == fn && (f.Name() == "processConsensusMsg" || f.Name() == "CancelTxBlockTimeout") {
 							return true
 						}
 					}
